@@ -1,7 +1,13 @@
 //! C07: isomorphic_datasets on renamed/shuffled copies and on mutants, every pair of container
 //! types, against the Coq model (C07/Model.v, run with an FNV stand-in for SipHash) and the
 //! property oracle (no false negative, symmetry, false on blanked-statement differences).
+//! Entry points: isomorphic_datasets on FALLIBLE datasets (errors injected at generated positions of either or both
+//! arguments; the result, the error side/code and the number of items pulled from each argument are compared with
+//! C07/EntryModel.v), isomorphic_graphs on fallible graphs and on graph views of datasets, and the model run with
+//! exactly the number of rounds proved sufficient in C07/LoopProofs.v (iso_tight_ok).
 use sophia_api::prelude::*;
+use sophia_api::source::StreamError::{SinkError, SourceError};
+use std::cell::Cell;
 use sophia_api::quad::Spog;
 use sophia_api::term::SimpleTerm;
 use sophia_inmem::dataset::{FastDataset, LightDataset};
@@ -119,6 +125,41 @@ fn iso_graph_view(a: &[Q], b: &[Q], g: Option<&ST>) -> bool {
     let r2 = isomorphic_graphs(&bt, &view).unwrap();
     r1 && r2
 }
+/// a dataset / graph whose enumeration yields the recorded results (possibly errors) and counts the items it is asked for
+struct FallibleDs { items: Vec<Result<Q, MyErr>>, pulled: Cell<usize> }
+impl Dataset for FallibleDs {
+    type Quad<'x> = Q;
+    type Error = MyErr;
+    fn quads(&self) -> impl Iterator<Item = Result<Self::Quad<'_>, Self::Error>> + '_ { self.items.iter().map(|x| { self.pulled.set(self.pulled.get() + 1); x.clone() }) }
+}
+struct FallibleGr { items: Vec<Result<[ST; 3], MyErr>>, pulled: Cell<usize> }
+impl Graph for FallibleGr {
+    type Triple<'x> = [ST; 3];
+    type Error = MyErr;
+    fn triples(&self) -> impl Iterator<Item = Result<Self::Triple<'_>, Self::Error>> + '_ { self.items.iter().map(|x| { self.pulled.set(self.pulled.get() + 1); x.clone() }) }
+}
+/// the items of `v` with 0 (`none_of_4` times out of 4), 1 or 2 errors inserted at generated positions (anywhere from before the
+/// first item to after the last one); also returns (number of items before the first error, its code)
+fn inject<T: Clone>(v: &[T], r: &mut Rng, none_of_4: usize) -> (Vec<Result<T, MyErr>>, Option<(usize, u64)>) {
+    let mut items: Vec<Result<T, MyErr>> = v.iter().cloned().map(Ok).collect();
+    let n_err = match r.below(4) { k if k < none_of_4 => 0, 3 => 2, _ => 1 };
+    for _ in 0..n_err { let pos = r.below(items.len() + 1); let code = 1 + r.below(9) as u64; items.insert(pos, Err(MyErr(code))); }
+    let first = items.iter().position(|x| x.is_err()).map(|p| (p, match &items[p] { Err(MyErr(c)) => *c, _ => 0 }));
+    (items, first)
+}
+#[derive(Debug, Clone, Copy, PartialEq, Eq)]
+enum Obs { Answer(bool), Source(u64), Sink(u64) }
+impl Obs {
+    fn of<T>(r: Result<bool, sophia_api::source::StreamError<MyErr, MyErr>>, _: T) -> Obs { match r { Ok(b) => Obs::Answer(b), Err(SourceError(MyErr(k))) => Obs::Source(k), Err(SinkError(MyErr(k))) => Obs::Sink(k) } }
+    fn coq(&self) -> String { match self { Obs::Answer(b) => format!("(ROk {})", coq_bool(*b)), Obs::Source(k) => format!("(RErr (SourceError {k}))"), Obs::Sink(k) => format!("(RErr (SinkError {k}))") } }
+}
+/// what the documentation of the entry points promises: an error of the first argument wins and is a SourceError (the
+/// second argument is then not read at all), otherwise the first error of the second one is a SinkError, otherwise the answer
+fn expected_obs(f1: Option<(usize, u64)>, f2: Option<(usize, u64)>, len1: usize, len2: usize, answer: bool) -> (Obs, usize, usize) {
+    match (f1, f2) { (Some((p, c)), _) => (Obs::Source(c), p + 1, 0), (None, Some((p, c))) => (Obs::Sink(c), len1, p + 1), (None, None) => (Obs::Answer(answer), len1, len2) }
+}
+fn c_items<T>(items: &[Result<T, MyErr>], f: &dyn Fn(&T) -> String) -> String { coq_list(items.iter().map(|x| match x { Ok(q) => format!("ROk {}", f(q)), Err(MyErr(c)) => format!("RErr {c}") })) }
+fn c_trip(t: &[ST; 3]) -> String { format!("({}, {}, {})", coq_term(&t[0]), coq_term(&t[1]), coq_term(&t[2])) }
 fn c_quad(q: &Q) -> String { format!("(mkQ {} {} {} {})", coq_term(&q.0[0]), coq_term(&q.0[1]), coq_term(&q.0[2]), coq_opt(q.1.as_ref().map(|g| coq_term(g)))) }
 fn dedup(v: &[Q]) -> Vec<Q> { let mut out: Vec<Q> = vec![]; for q in v { if !out.iter().any(|x| Quad::eq(x, (q.0.each_ref(), q.1.as_ref()))) { out.push(q.clone()) } } out }
 
@@ -126,7 +167,8 @@ fn main() {
     let a = parse_args();
     let mut sum = Summary::default();
     sum.rule = "case = (dataset shape: cycle / clique with blank graph name / disjoint isomorphic components + star / quoted triples containing blank nodes / random generalized quads; second dataset = renamed+shuffled copy, or a mutant: one ground term changed, one statement added or removed, two blank nodes merged, one split; pair of container types); \
-non-trivial = at least 2 blank nodes and the pair passes the size and blanked-statement pre-checks (so the colour refinement decides); distinct = distinct printed pair".into();
+non-trivial = at least 2 blank nodes and the pair passes the size and blanked-statement pre-checks (so the colour refinement decides); distinct = distinct printed pair; \
+every case additionally runs the two entry points on fallible versions of the pair (0, 1 or 2 errors inserted at generated positions of each argument: result, error side and code, items pulled from each argument), isomorphic_graphs on the default graphs or the unions of all graphs, and on a graph view of the first dataset".into();
     let base = Rng::new(a.seed);
     let mut cases = vec![]; let mut seen = HashSet::new();
     let range: Vec<usize> = match a.only { Some(i) => vec![i], None => (0..a.n).collect() };
@@ -197,10 +239,58 @@ non-trivial = at least 2 blank nodes and the pair passes the size and blanked-st
         sum.bump(&format!("variant:{}", ["copy", "copy", "ground-term-changed", "statement-added", "blank-merged", "blank-split", "ground-atom-changed-in-blank-free-statement", "ground-atom-changed-in-blank-free-statement"][variant])); sum.bump(&format!("answer:{ans}")); sum.bump(&format!("containers:{kind}"));
         if sum.samples.len() < 4 && nontrivial { sum.samples.push(format!("case {idx}: {text} => {ans}")); }
         sum.evaluations += 1;
-        cases.push((idx, format!("iso_ok {} {} {}", coq_list(d1.iter().map(c_quad)), coq_list(d2.iter().map(c_quad)), coq_bool(ans))));
+        let mut body = format!("let d1 := {} in let d2 := {} in iso_ok d1 d2 {}", coq_list(d1.iter().map(c_quad)), coq_list(d2.iter().map(c_quad)), coq_bool(ans));
+        // the model with exactly the number of rounds proved sufficient (every 16th case: checking the condition costs 4 * #blank nodes rounds per side)
+        if idx % 16 == 0 { body.push_str(&format!(" && iso_tight_ok d1 d2 {}", coq_bool(ans))); sum.bump("tight-fuel-run"); }
+
+        // ---- the dataset entry point on fallible datasets: errors at generated positions of either or both arguments
+        {
+            let (it1, f1) = inject(&d1, &mut r, 1); let (it2, f2) = inject(&d2, &mut r, 1);
+            let fd1 = FallibleDs { items: it1, pulled: Cell::new(0) }; let fd2 = FallibleDs { items: it2, pulled: Cell::new(0) };
+            let obs = Obs::of(isomorphic_datasets(&fd1, &fd2), ()); let (p1, p2) = (fd1.pulled.get(), fd2.pulled.get());
+            let exp = expected_obs(f1, f2, d1.len(), d2.len(), ans);
+            if a.only.is_some() { println!("FALLIBLE DATASETS items1={:?} items2={:?}\nIMPL {obs:?} pulled {p1} / {p2} (expected {exp:?})", fd1.items, fd2.items); }
+            if (obs, p1, p2) != exp { sum.oracle_failures.push((idx.to_string(), format!("isomorphic_datasets on fallible datasets: observed {obs:?} after pulling {p1} items of the first and {p2} of the second argument, expected {exp:?} (an error of the first argument wins as SourceError and the second one is not read; otherwise the first error of the second one as SinkError; otherwise the answer on the same statements); items1={:?} items2={:?}", fd1.items, fd2.items))); }
+            sum.bump(&format!("fallible-datasets:{}", match (f1.is_some(), f2.is_some()) { (true, true) => "both-fail", (true, false) => "first-fails", (false, true) => "second-fails", _ => "no-error" }));
+            body.push_str(&format!(" && ds_ok {} {} {} {p1} {p2}", c_items(&fd1.items, &|q| c_quad(q)), c_items(&fd2.items, &|q| c_quad(q)), obs.coq()));
+        }
+        // ---- the graph entry point: the default graphs, or the unions of all graphs (duplicates kept: these are lists), as
+        // fallible graphs; and the graph entry point must agree with the dataset one on the statements (s, p, o, default)
+        {
+            let union = r.chance(1, 2);
+            let tr = |d: &[Q]| -> Vec<[ST; 3]> { d.iter().filter(|q| union || q.1.is_none()).map(|q| q.0.clone()).collect() };
+            let (t1, t2) = (tr(&d1), tr(&d2));
+            let as_ds = |t: &[[ST; 3]]| -> Vec<Q> { t.iter().map(|x| (x.clone(), None)).collect() };
+            let ga = sophia_isomorphism::isomorphic_graphs(&t1, &t2).unwrap();
+            let da = isomorphic_datasets(&as_ds(&t1), &as_ds(&t2)).unwrap();
+            if ga != da { sum.oracle_failures.push((idx.to_string(), format!("isomorphic_graphs answers {ga} but isomorphic_datasets answers {da} on the same triples placed in the default graph; t1={t1:?} t2={t2:?}"))); }
+            if expect_true && !ga { sum.oracle_failures.push((idx.to_string(), format!("false negative of isomorphic_graphs on the {} of a renamed and reordered copy; t1={t1:?} t2={t2:?}", if union { "union of all graphs" } else { "default graph" }))); }
+            let (it1, f1) = inject(&t1, &mut r, 2); let (it2, f2) = inject(&t2, &mut r, 2);
+            let fg1 = FallibleGr { items: it1, pulled: Cell::new(0) }; let fg2 = FallibleGr { items: it2, pulled: Cell::new(0) };
+            let obs = Obs::of(sophia_isomorphism::isomorphic_graphs(&fg1, &fg2), ()); let (p1, p2) = (fg1.pulled.get(), fg2.pulled.get());
+            let exp = expected_obs(f1, f2, t1.len(), t2.len(), ga);
+            if a.only.is_some() { println!("FALLIBLE GRAPHS ({}) items1={:?} items2={:?}\nIMPL {obs:?} pulled {p1} / {p2} (expected {exp:?})", if union { "union" } else { "default graph" }, fg1.items, fg2.items); }
+            if (obs, p1, p2) != exp { sum.oracle_failures.push((idx.to_string(), format!("isomorphic_graphs on fallible graphs: observed {obs:?} after pulling {p1} / {p2} items, expected {exp:?}; items1={:?} items2={:?}", fg1.items, fg2.items))); }
+            sum.bump(&format!("fallible-graphs:{}", match (f1.is_some(), f2.is_some()) { (true, true) => "both-fail", (true, false) => "first-fails", (false, true) => "second-fails", _ => "no-error" }));
+            body.push_str(&format!(" && gr_ok {} {} {} {p1} {p2}", c_items(&fg1.items, &|t| c_trip(t)), c_items(&fg2.items, &|t| c_trip(t)), obs.coq()));
+        }
+        // ---- one graph of d1 (any name that occurs, blank ones included, or the default graph) through Dataset::graph, against
+        // the stand-alone list of the triples of the graph of the same name of d2 (every 2nd case)
+        if idx % 2 == 1 {
+            let mut names: Vec<Option<ST>> = vec![None]; for q in &d1 { if let Some(g) = &q.1 { if !names.iter().any(|n| n.as_ref() == Some(g)) { names.push(Some(g.clone())); } } }
+            let g = r.pick(&names).clone();
+            let bt: Vec<[ST; 3]> = d2.iter().filter(|q| match (&q.1, &g) { (None, None) => true, (Some(x), Some(y)) => Term::eq(x, y.borrow_term()), _ => false }).map(|q| q.0.clone()).collect();
+            let view = d1.graph(g.clone());
+            let r1 = sophia_isomorphism::isomorphic_graphs(&view, &bt).unwrap(); let r2 = sophia_isomorphism::isomorphic_graphs(&bt, &view).unwrap();
+            if a.only.is_some() { println!("GRAPH VIEW {g:?} of d1 against {bt:?}\nIMPL {r1} (reverse {r2})"); }
+            if r1 != r2 { sum.oracle_failures.push((idx.to_string(), format!("isomorphic_graphs not symmetric on the view of graph {g:?}: {r1} vs {r2}; {text}"))); }
+            sum.bump("graph-view-case");
+            body.push_str(&format!(" && view_ok {} d1 {} {}", coq_opt(g.as_ref().map(|x| coq_term(x))), coq_list(bt.iter().map(c_trip)), coq_bool(r1)));
+        }
+        cases.push((idx, body));
     }
     if a.only.is_none() {
-        sum.shards = write_shards(&a.out, "From Sophia.C07 Require Import Model.", &cases, a.shards);
+        sum.shards = write_shards(&a.out, "From Sophia.C07 Require Import Model LoopModel EntryModel.", &cases, a.shards);
         std::fs::write(format!("{}/summary.json", a.out), sum.to_json()).unwrap();
     }
     println!("c07: {} cases, {} distinct non-trivial, {} oracle failures", sum.evaluations, sum.distinct_nontrivial, sum.oracle_failures.len());
